@@ -58,6 +58,24 @@ def rowVec (A : Op R) (p : Nat) : Nat → R :=
 
 def fullSlice : Ix := .slice none none none
 
+/-- NumPy broadcasting of two 1-D integer index sequences: equal lengths pair up, a sequence of
+length 1 is repeated along the other one, anything else is a shape mismatch (`IndexError`) -/
+def bcastIdx (l0 l1 : List Int) : Option (List Int × List Int) :=
+  if l0.length = l1.length then some (l0, l1)
+  else if l0.length = 1 then some (List.replicate l1.length (l0.headD 0), l1)
+  else if l1.length = 1 then some (l0, List.replicate l0.length (l1.headD 0))
+  else none
+
+/-- the list preparation of `__getitem__` (`case list(li), list(lj)`, /repo dd36003), as written there:
+`len(li) != len(lj) and 1 not in (len(li), len(lj))` is an IndexError, otherwise the shorter list is
+repeated (`li * len(lj)`: Python list repetition) -/
+def listBcast (li lj : List Int) : Option (List Int × List Int) :=
+  if li.length != lj.length && !(li.length == 1 || lj.length == 1) then none
+  else if li.length != lj.length then
+    if li.length == 1 then some ((List.replicate lj.length li).flatten, lj)
+    else some (li, (List.replicate li.length lj).flatten)
+  else some (li, lj)
+
 /-- `A[ids]` -/
 def getitem (A : Op R) : List GIx → GRes R
   | [.int i] =>
@@ -77,25 +95,22 @@ def getitem (A : Op R) : List GIx → GRes R
       if (Ix.resolve A.rows s0).isSome && (Ix.resolve A.cols s1).isSome then .op (sliced A s0 s1)
       else .err "index-error"
   | [.list li, .list lj] =>
-      let pairs := li.zip lj
-      match pairs.mapM (fun p => do
-          let c ← GRes.wrap A.cols p.2
-          let r ← GRes.wrap A.rows p.1
-          pure (r, c)) with
-      | some [] => .err "error:ValueError"      -- `xnp.stack([])`: "need at least one array to stack"
-      | some ps =>
-          let vals := ps.map (fun p => A.colVec p.2 p.1)
-          .vec vals.length (fun t => vals.getD t 0)
+      -- /repo dd36003: the two lists are broadcast like NumPy (a single index pairs with every index of
+      -- the other list), lists that cannot be broadcast raise IndexError, empty lists give an empty vector
+      match listBcast li lj with
       | none => .err "index-error"
+      | some (a, b) =>
+        if a.isEmpty then .vec 0 (fun _ => 0)
+        else
+          match (a.zip b).mapM (fun p => do
+              let c ← GRes.wrap A.cols p.2
+              let r ← GRes.wrap A.rows p.1
+              pure (r, c)) with
+          | some ps =>
+              let vals := ps.map (fun p => A.colVec p.2 p.1)
+              .vec vals.length (fun t => vals.getD t 0)
+          | none => .err "index-error"
   | _ => .err "not-implemented"
-
-/-- NumPy broadcasting of two 1-D integer index sequences: equal lengths pair up, a sequence of
-length 1 is repeated along the other one, anything else is a shape mismatch (`IndexError`) -/
-def bcastIdx (l0 l1 : List Int) : Option (List Int × List Int) :=
-  if l0.length = l1.length then some (l0, l1)
-  else if l0.length = 1 then some (List.replicate l1.length (l0.headD 0), l1)
-  else if l1.length = 1 then some (l0, List.replicate l0.length (l1.headD 0))
-  else none
 
 /-- NumPy's paired ("fancy") selection `D[l0, l1]` of an `r × c` matrix by two integer sequences -/
 def npPaired (r c : Nat) (D : MatF R) (l0 l1 : List Int) : GRes R :=
